@@ -23,6 +23,7 @@ INNER = [
     'SELECT b AS a, a AS b FROM #t',
     'SELECT a AS meta, b AS entry, c AS id FROM #t',          # output names that are special on ledger tables are ordinary here
     'SELECT b FROM #t', 'SELECT a, b FROM #t WHERE a IS NOT NULL ORDER BY b',      # duplicate rows reach the outer query
+    'SELECT a, b FROM #t LIMIT 0', 'SELECT a, b FROM #t ORDER BY a LIMIT 1',        # an inner LIMIT (also 0) is the inner query's own
 ]
 OUTER = ['*', '{0}', '{0}, {1}', '{1}, {0}', 'count(*)', '{0}, count(*)', '{0} ORDERBY', '{0} WHERE', '{0} ORDERBY1', '{0} ORDERBY1 LIMIT', 'DISTINCT *', 'DISTINCT {0}', '* LIMIT']
 
@@ -169,6 +170,30 @@ def special(res):
         if got != exp:
             res.violation('h08:twin-subqueries:' + q[:60], 'every IN subquery of a statement is evaluated for itself (same text, different parameters)', {'query': q, 'params': list(params)},
                           got if isinstance(got, str) else got[:4], exp[:4])
+    # columns of a subquery over a ledger keep the datatypes the subquery announces (structured Beancount values included), so that
+    # the outer query types and evaluates them like the same expressions over the base table
+    try:
+        from harness import ledger
+        lc = ledger.connect()
+        inner = 'SELECT account, position, units(position) AS u, cost(position) AS c, weight FROM #postings'
+        idesc = [(d.name, d.datatype) for d in lc.execute(inner).description]
+        res.case(('ledger-subquery-types', inner))
+        odesc = [(d.name, d.datatype) for d in lc.execute(f'SELECT * FROM ({inner})').description]
+        if odesc != idesc:
+            res.violation('h08:ledger-subquery-types', 'SELECT * FROM (q) describes the columns as q does (names and datatypes)', {'query': inner}, [(n, t.__name__) for n, t in odesc], [(n, t.__name__) for n, t in idesc])
+        for outer, direct in [('SELECT units(position), number(u), currency(c) FROM ({0})', 'SELECT units(position), number(units(position)), currency(cost(position)) FROM #postings'),
+                              ('SELECT account, sum(position), sum(weight) FROM ({0}) GROUP BY account ORDER BY account', 'SELECT account, sum(position), sum(weight) FROM #postings GROUP BY account ORDER BY account')]:
+            q = outer.format(inner)
+            res.case(('ledger-subquery-functions', q))
+            try:
+                got = lc.execute(q).fetchall()
+            except Exception as e:  # noqa
+                got = f'{type(e).__name__}: {e}'
+            exp = lc.execute(direct).fetchall()
+            if got != exp:
+                res.violation('h08:ledger-subquery-functions:' + outer[:40], 'typed functions apply to subquery columns as to the same expressions over the base table', {'query': q}, got if isinstance(got, str) else got[:2], exp[:2])
+    except ImportError:
+        pass
     for q in ['SELECT a FROM #t WHERE a IN (SELECT a, b FROM #u)', 'SELECT a IN (SELECT * FROM #u) FROM #t']:
         res.case(q, {'query': q})
         try:
